@@ -132,9 +132,13 @@ PROPS["C10"] = dict(
           "under both settings of the backslash_lambda feature (two builds of the harness); non-trivial = distinct term"),
     trusted_base=PARSE_TB,
     assumptions=["the Gallina mirrors of Display and of the parser are faithful (differential testing only)", OUTSIDE],
-    explanation=("PARTIAL proof: Display = reference rendering is a theorem for all terms, depths and both glyphs (incl. "
-                 "base26_encode = bijective base 26 for every n); the round trip parse(Display t) = canon t is decided by "
-                 "running implementation and model on the printed strings."))
+    explanation=("Theorems for every term without UD, every depth and both glyphs: Display = reference rendering; the model of "
+                 "parse applied to the model's Display output returns canon(t) (= t when closed). Proof: bijective base 26 is "
+                 "injective and lower-case; the Classic lexer inverts the renderer; lexical-scoping name resolution maps binder "
+                 "names (depths below the maximal depth) and free names (numbered after all binder names) to the indices of "
+                 "canon(t); the recursive-descent parser inverts the printer; C09 transfers this to the model. The "
+                 "implementation's round trip is checked in both feature builds, incl. depths beyond 26 and 702 and indices "
+                 "shifted by 2^32-1 / 2^48+12345."))
 PROPS["C11"] = dict(
     suites=["print"], oracle_re=r"oracle:C11:", both_glyphs=True, suites_bs=["print"],
     rule=("every term up to 5 / 6 constructors over indices 0..3, random terms with indices 1..15 (all 15 digits, nested "
